@@ -615,8 +615,21 @@ def make_sequence(idx, entries, weights):
                 calls.append((shipped, shipped_args(rng, nm, neg, dated, True), None))
         calls.append((shipped, shipped_args(rng, nm, False, True, False), None))
     attempts = 0
+    hammer = None
+    if idx >= len(G.TRANS_NAMES) and rng.random() < 0.12:
+        # ONE routine called many times with fresh arguments (file-backed ones — the NTv2 readers — twice as often): split over
+        # threads below, several calls of the same routine then run at the same moment, which a random mix rarely arranges
+        pool = [e for e in entries if 'ntv2' in e.name.lower()] * 2 + list(entries)
+        hammer = rng.choice(pool)
+        length = rng.randint(24, 48)
     while len(calls) < length and attempts < 500:
         attempts += 1
+        if hammer is not None:
+            try:
+                calls.append((hammer, hammer.gen(rng), None))
+            except Exception:  # noqa
+                pass
+            continue
         if calls and rng.random() < 0.3:
             j = rng.randrange(len(calls))
             j = calls[j][2] if calls[j][2] is not None else j
